@@ -1457,6 +1457,25 @@ class ModuleScope(VhdlScope):
         "signed",
         "unsigned",
         "resize",
+        # other predefined names used by the generated code
+        "boolean",
+        "integer",
+        "natural",
+        "string",
+        "true",
+        "false",
+        "to_integer",
+        "to_unsigned",
+        "to_signed",
+        "shift_left",
+        "shift_right",
+        "rising_edge",
+        "falling_edge",
+        "cohdl_bool_to_std_logic",
+        "ieee",
+        "std_logic_1164",
+        "numeric_std",
+        "work",
     }
 
     def __init__(self, *, additional_reserved_names: set[str] = None):
